@@ -46,7 +46,12 @@ impl<'c> Slice<'c> {
         let block = read_block_as(&mut src, ContentType::CoreData)?;
         let core_data_src = block.decode()?;
 
-        let external_data_block_count = self.header.block_count() - 1;
+        // The block count includes the core data block.
+        let external_data_block_count =
+            self.header.block_count().checked_sub(1).ok_or_else(|| {
+                io::Error::new(io::ErrorKind::InvalidData, "invalid slice block count")
+            })?;
+
         let external_data_srcs = (0..external_data_block_count)
             .map(|_| {
                 let block = read_block_as(&mut src, ContentType::ExternalData)?;
@@ -444,6 +449,37 @@ mod tests {
 
     use super::*;
     use crate::record::Flags;
+
+    #[test]
+    fn test_decode_blocks_with_invalid_block_count() {
+        let src = [
+            0x00, // compression method = none (0)
+            0x05, // content type = core data (5)
+            0x00, // block content ID = 0
+            0x00, // size in bytes = 0 bytes
+            0x00, // raw size in bytes = 0 bytes
+            0x2f, 0x07, 0xfc, 0xf1, // CRC32 = f1fc072f
+        ];
+
+        let slice = Slice {
+            header: Header {
+                reference_sequence_context: ReferenceSequenceContext::None,
+                record_count: 0,
+                record_counter: 0,
+                block_count: 0,
+                block_content_ids: Vec::new(),
+                embedded_reference_bases_block_content_id: None,
+                reference_md5: None,
+                optional_tags: Vec::new(),
+            },
+            src: &src,
+        };
+
+        assert!(matches!(
+            slice.decode_blocks(),
+            Err(e) if e.kind() == io::ErrorKind::InvalidData
+        ));
+    }
 
     #[test]
     fn test_resolve_mates() -> io::Result<()> {
